@@ -77,7 +77,7 @@ def generate(rng, tier):
         elif m == 8 and i % 20 == 8:
             cases.append(sc.gen_dag(rng, shared_pull=True))
         elif m == 8:
-            cases.append(sc.gen_pipeline(rng) if i % 40 == 18 else (sc.gen_shared_equal(rng) if i % 40 == 28 else sc.gen_relay2(rng)))
+            cases.append([sc.gen_pipeline, sc.gen_relay2, sc.gen_two_relays, sc.gen_shared_equal, sc.gen_pull_ring][(i // 20) % 5](rng))
         else:
             cases.append(sc.gen_ring(rng))
     return cases
